@@ -182,11 +182,16 @@ var c11Injectors = []c11Injector{
 	{"typedef-cycle-in-a-local-scope", true, func(r *core.Rng, ms *yang.ModSet) bool {
 		m := modA(ms)
 		var cyc []*yang.Stmt
-		switch r.Intn(3) {
+		switch r.Intn(5) {
 		case 0:
 			cyc = []*yang.Stmt{yang.S("typedef", "cyt", yang.S("type", "cyt"))}
 		case 1:
 			cyc = []*yang.Stmt{yang.S("typedef", "cyt", yang.S("type", "cyt2")), yang.S("typedef", "cyt2", yang.S("type", "cyt"))}
+		case 2:
+			// one link of the cycle written with the module's own prefix
+			cyc = []*yang.Stmt{yang.S("typedef", "cyt", yang.S("type", pfx(m)+":cyt2")), yang.S("typedef", "cyt2", yang.S("type", "cyt"))}
+		case 3:
+			cyc = []*yang.Stmt{yang.S("typedef", "cyt", yang.S("type", "cyt2")), yang.S("typedef", "cyt2", yang.S("type", "union", yang.S("type", "string"), yang.S("type", pfx(m)+":cyt")))}
 		default:
 			cyc = []*yang.Stmt{yang.S("typedef", "cyt", yang.S("type", "union", yang.S("type", "int8"), yang.S("type", "cyt")))}
 		}
